@@ -6,7 +6,7 @@
    on the implementation objects by harness/props/c09.py after every step. *)
 From Coq Require Import ZArith List Bool.
 From Coq Require Import QArith.
-From Forsys Require Import Model.PyList Model.Interfaces Model.Resample Model.Heap Proofs.HeapProofs Proofs.ShiftProofs Proofs.ResampleProofs Proofs.ResampleConsistency.
+From Forsys Require Import Model.PyList Model.Interfaces Model.Resample Model.Heap Proofs.HeapProofs Proofs.ShiftProofs Proofs.ResampleProofs Proofs.ResampleConsistency Proofs.SelectionProofs.
 Import ListNotations.
 
 Theorem C09_step_preserves : forall s o, Inv s -> Inv (hstep s o).
@@ -40,6 +40,19 @@ Theorem C09_resampled_cycle_joined : forall idx junc ne st,
   forall cid cyc a b, In (cid, cyc) (cs (resample_core st narr)) -> (forall old, In (cid, old) (cs st) -> existsb junc old = true) ->
   cyc_adjacent a b cyc -> joined (es (resample_core st narr)) a b.
 Proof. exact resampled_cycle_joined. Qed.
+(* the two conditions follow from conditions on the mesh and the index function alone: interfaces without repeated vertex, an admissible
+   index (C11: the floor index and the binary64 index are), a vertex named by some resampled interface is named by the resampling of every
+   interface it lies on (junctions are ends and always kept; interior vertices lie on one interface), every junction is an end *)
+Theorem C09_resampled_cycle_joined_on_simple_meshes : forall idx junc ne st,
+  let bedges := create_edges_new junc (cs st) in
+  let narr := n_edge_array idx ne bedges in
+  (1 <= ne)%Z ->
+  (forall f, In f bedges -> NoDup f /\ ((ne < Z.of_nat (length f))%Z -> admissible idx (Z.of_nat (length f)) ne)) ->
+  (forall f f' v, In f bedges -> In f' bedges -> In v f -> In v (select_iface idx ne f') -> In v (select_iface idx ne f)) ->
+  (forall v, junc v = true -> exists f, In f bedges /\ f <> [] /\ (v = hd 0%Z f \/ v = last f 0%Z) /\ idx (Z.of_nat (length f)) ne 0%Z = 0%Z) ->
+  forall cid cyc a b, In (cid, cyc) (cs (resample_core st narr)) -> (forall old, In (cid, old) (cs st) -> existsb junc old = true) ->
+  cyc_adjacent a b cyc -> joined (es (resample_core st narr)) a b.
+Proof. exact resampled_cycle_joined_on_simple_meshes. Qed.
 (* the same with the conditions in executable form (evaluated by the harness on every resampled mesh it generates) *)
 Theorem C09_resample_hyps_cycles_joined : forall idx jl ne st, resample_hyps idx jl ne st = true ->
   cycles_joined (resample_core st (n_edge_array idx ne (create_edges_new (fun v => memZ v jl) (cs st)))) = true.
@@ -65,3 +78,4 @@ Print Assumptions C09_resample_edges_reference_vertices.
 Print Assumptions C09_resample_cells_consistent.
 Print Assumptions C09_resampled_cycle_joined.
 Print Assumptions C09_resample_hyps_cycles_joined.
+Print Assumptions C09_resampled_cycle_joined_on_simple_meshes.
